@@ -240,6 +240,7 @@ type pool struct {
 	scratch  string
 	abandon  int32 // set when the current space is given up after mass failures of confirmed classes
 	known    []string
+	sampled  map[string]bool
 
 	mu        sync.Mutex
 	classSeen map[string]int
@@ -258,7 +259,7 @@ type spaceStat struct {
 
 func newPool(r *core.Run) *pool {
 	return &pool{r: r, thorough: r.Thorough(), n: r.Workers, classSeen: map[string]int{}, repeats: map[string]int64{},
-		stats: map[string]*spaceStat{}, known: knownClasses()}
+		stats: map[string]*spaceStat{}, known: knownClasses(), sampled: map[string]bool{}}
 }
 
 // knownClasses reads the class globs of the recorded C03 findings.  They are
@@ -369,7 +370,12 @@ func (pl *pool) absorb(sp *space, rp *reply) {
 		r.Nontrivial(k)
 	}
 	for _, s := range rp.Samples {
-		if len(s.Src) < 300 && len(s.Pre) < 300 {
+		// one real, value-producing case per space
+		pl.mu.Lock()
+		first := !pl.sampled[sp.Name]
+		pl.sampled[sp.Name] = true
+		pl.mu.Unlock()
+		if first {
 			r.Sample(s)
 		}
 	}
